@@ -25,7 +25,7 @@ use rustc_middle::mir::{
     self, AggregateKind, BasicBlockData, Body, Operand, Place, ProjectionElem, Rvalue,
     StatementKind, TerminatorKind,
 };
-use rustc_middle::ty::print::{with_crate_prefix, with_no_trimmed_paths};
+use rustc_middle::ty::print::{with_crate_prefix, with_no_trimmed_paths, with_no_visible_paths};
 use rustc_middle::ty::print::PrintTraitRefExt;
 use rustc_middle::ty::{self, Instance, Ty, TyCtxt, TypingEnv};
 use rustc_span::Span;
@@ -49,7 +49,7 @@ impl rustc_driver::Callbacks for Cb {
         let kinds: Vec<String> =
             tcx.crate_types().iter().map(|k| format!("{:?}", k).to_lowercase()).collect();
         let is_test = tcx.sess.opts.test;
-        let j = with_crate_prefix!(with_no_trimmed_paths!(extract(tcx, &krate, is_test)));
+        let j = with_crate_prefix!(with_no_visible_paths!(with_no_trimmed_paths!(extract(tcx, &krate, is_test))));
         let fname = format!(
             "{}/{}.{}{}.json",
             out,
@@ -240,10 +240,18 @@ fn extract<'tcx>(tcx: TyCtxt<'tcx>, krate: &str, is_test: bool) -> J {
                 o.set("self_ty", jstr(tcx.type_of(did).instantiate_identity().skip_norm_wip()));
                 o.set("derived", J::Bool(tcx.is_automatically_derived(did)));
                 let mut items = J::obj();
+                let mut types = J::obj();
                 for it in tcx.associated_items(did).in_definition_order() {
                     items.set(&it.name().to_string(), jstr(tcx.def_path_str(it.def_id)));
+                    if it.is_type() {
+                        types.set(
+                            &it.name().to_string(),
+                            jstr(tcx.type_of(it.def_id).instantiate_identity().skip_norm_wip()),
+                        );
+                    }
                 }
                 o.set("items", items);
+                o.set("types", types);
                 o.set("span", J::Str(span_str(tcx, tcx.def_span(did))));
                 impls.push(o);
             }
